@@ -1,9 +1,9 @@
-(* C09 — machine-level proofs, part E: the model passes the schedule checker of Run.v.
+(* C09 — machine-level proofs, part E (compiled AFTER part F): the model passes the schedule checker of Run.v.
    check_sched_sound : forall m es, check_sched m es (OList (run_obs es (init m))) = true. *)
 From Coq Require Import List NArith ZArith String Bool Arith Lia Sorting.Sorted Sorting.Permutation.
 Import ListNotations.
 From TV Require Import Lib.Obs C09.Run C09.Model
-  C09.ProofsMachineA C09.ProofsMachineB C09.ProofsMachineC C09.ProofsMachineD.
+  C09.ProofsMachineA C09.ProofsMachineB C09.ProofsMachineC C09.ProofsMachineD C09.ProofsMachineF.
 Local Open Scope string_scope.
 Local Open Scope list_scope.
 Local Open Scope nat_scope.
@@ -22,8 +22,8 @@ Lemma chk_start mx nf k a :
   match znat a with
   | Some a' =>
       mkChk (k_ok k && match k_last_start k with Some b => b <? a' | None => true end)
-            (Some a') (k_done k) (k_idle k)
-  | None => mkChk false (k_last_start k) (k_done k) (k_idle k)
+            (Some a') (k_done k) (k_idle k) (k_sub k) (k_evs k)
+  | None => chk_fail k
   end.
 Proof. reflexivity. Qed.
 
@@ -32,25 +32,26 @@ Lemma chk_done mx nf k f x :
   match znat f with
   | Some f' =>
       mkChk (k_ok k && (f' <? nf) && negb (mem f' (k_done k))) (k_last_start k)
-            (f' :: k_done k) (k_idle k)
-  | None => mkChk false (k_last_start k) (k_done k) (k_idle k)
+            (f' :: k_done k) (k_idle k) (k_sub k) (k_evs k)
+  | None => chk_fail k
   end.
 Proof. reflexivity. Qed.
 
 Lemma chk_snap mx nf k a q x y :
   chk_entry mx nf k (OList [OTag "snap"; OInt a; OInt q; OInt x; OInt y]) =
-  mkChk (k_ok k && (a <=? Z.of_nat mx)%Z && (0 <=? a)%Z && (0 <=? q)%Z)
-        (k_last_start k) (k_done k) ((a =? 0)%Z && (q =? 0)%Z).
+  match k_evs k with
+  | e :: evs =>
+      mkChk (k_ok k && (a <=? Z.of_nat mx)%Z && (0 <=? a)%Z && (0 <=? q)%Z &&
+             (a + q + Z.of_nat (List.length (k_done k)) =? Z.of_nat ((if is_fetch e then 1 else 0) + k_sub k))%Z)
+            (k_last_start k) (k_done k) ((a =? 0)%Z && (q =? 0)%Z)
+            ((if is_fetch e then 1 else 0) + k_sub k) evs
+  | [] => chk_fail k
+  end.
 Proof. reflexivity. Qed.
 
 (* ---------------- dones / last_opt ---------------- *)
-Definition dones (L : list logev) : list nat :=
-  flat_map (fun e => match e with LDone f _ => [f] | _ => [] end) L.
 Definition last_opt (l : list nat) : option nat :=
   match rev l with [] => None | x :: _ => Some x end.
-
-Lemma dones_app L l : dones (L ++ l) = dones L ++ dones l.
-Proof. unfold dones. apply flat_map_app. Qed.
 
 Lemma last_opt_snoc l a : last_opt (l ++ [a]) = Some a.
 Proof. unfold last_opt. rewrite rev_app_distr. reflexivity. Qed.
@@ -59,21 +60,6 @@ Lemma last_opt_In l b : last_opt l = Some b -> In b l.
 Proof.
   unfold last_opt. destruct (rev l) as [|x r] eqn:E; intro H; [discriminate H|].
   injection H as ->. apply in_rev. rewrite E. left. reflexivity.
-Qed.
-
-Lemma count_done_occ f L : count_done f L = count_occ Nat.eq_dec (dones L) f.
-Proof.
-  induction L as [|e L IH]; [reflexivity|].
-  change (e :: L) with ([e] ++ L). rewrite count_done_app, dones_app, count_occ_app, IH.
-  f_equal. destruct e as [a|g o|g o|b]; try reflexivity.
-  unfold count_done. simpl. destruct (Nat.eq_dec g f) as [->|Hne].
-  - rewrite Nat.eqb_refl. reflexivity.
-  - apply Nat.eqb_neq in Hne. rewrite Hne. reflexivity.
-Qed.
-
-Lemma In_dones_count f L : In f (dones L) <-> 1 <= count_done f L.
-Proof.
-  rewrite count_done_occ. rewrite (count_occ_In Nat.eq_dec). unfold gt, lt. reflexivity.
 Qed.
 
 (* ---------------- one log segment ---------------- *)
@@ -87,11 +73,13 @@ Definition LogOK (nf : nat) (X : list logev) : Prop :=
 Lemma ev_fold mx nf e L l' k :
   LogOK nf (L ++ e :: l') -> KL k L ->
   KL (fold_left (chk_entry mx nf) (obs_logev e) k) (L ++ [e]) /\
-  k_idle (fold_left (chk_entry mx nf) (obs_logev e) k) = k_idle k.
+  k_idle (fold_left (chk_entry mx nf) (obs_logev e) k) = k_idle k /\
+  k_sub (fold_left (chk_entry mx nf) (obs_logev e) k) = k_sub k /\
+  k_evs (fold_left (chk_entry mx nf) (obs_logev e) k) = k_evs k.
 Proof.
   intros (S1 & S2 & S3 & S4) (K1 & K2 & K3). destruct e as [a|f o|f o|b]; cbn [obs_logev fold_left].
   - (* LStart *)
-    rewrite chk_start, znat_of_nat. split; [|reflexivity].
+    rewrite chk_start, znat_of_nat. split; [|repeat split].
     unfold KL. cbn [k_ok k_last_start k_done k_idle]. split; [|split].
     + rewrite K1, andb_true_l. destruct (k_last_start k) as [b|] eqn:Eb; [|reflexivity].
       apply Nat.ltb_lt. symmetry in K2. apply last_opt_In in K2.
@@ -100,7 +88,7 @@ Proof.
     + rewrite starts_app. change (starts [LStart a]) with [a]. rewrite last_opt_snoc. reflexivity.
     + rewrite dones_app. change (dones [LStart a]) with (@nil nat). rewrite app_nil_r. exact K3.
   - (* LDone *)
-    rewrite chk_done, znat_of_nat. split; [|reflexivity].
+    rewrite chk_done, znat_of_nat. split; [|repeat split].
     unfold KL. cbn [k_ok k_last_start k_done k_idle]. split; [|split].
     + rewrite K1, andb_true_l.
       assert (Hlt : f < nf).
@@ -116,7 +104,7 @@ Proof.
     + rewrite dones_app. change (dones [LDone f o]) with [f]. rewrite rev_app_distr.
       cbn [rev app]. rewrite K3. reflexivity.
   - (* LLost *)
-    split; [|reflexivity]. split; [exact K1|]. split.
+    split; [|repeat split]. split; [exact K1|]. split.
     + rewrite starts_app. change (starts [LLost f o]) with (@nil nat). rewrite app_nil_r. exact K2.
     + rewrite dones_app. change (dones [LLost f o]) with (@nil nat). rewrite app_nil_r. exact K3.
   - (* LBug *)
@@ -126,21 +114,24 @@ Qed.
 Lemma seg_fold mx nf : forall l L k,
   LogOK nf (L ++ l) -> KL k L ->
   KL (fold_left (chk_entry mx nf) (flat_map obs_logev l) k) (L ++ l) /\
-  k_idle (fold_left (chk_entry mx nf) (flat_map obs_logev l) k) = k_idle k.
+  k_idle (fold_left (chk_entry mx nf) (flat_map obs_logev l) k) = k_idle k /\
+  k_sub (fold_left (chk_entry mx nf) (flat_map obs_logev l) k) = k_sub k /\
+  k_evs (fold_left (chk_entry mx nf) (flat_map obs_logev l) k) = k_evs k.
 Proof.
   induction l as [|e l IH]; intros L k HX HK.
-  - simpl. rewrite app_nil_r. split; [exact HK|reflexivity].
+  - simpl. rewrite app_nil_r. split; [exact HK|repeat split].
   - cbn [flat_map]. rewrite fold_left_app.
-    destruct (ev_fold mx nf e L l k HX HK) as [HK1 HI1].
+    destruct (ev_fold mx nf e L l k HX HK) as (HK1 & HI1 & HS1 & HE1).
     assert (E : L ++ e :: l = (L ++ [e]) ++ l) by (rewrite <- app_assoc; reflexivity).
     rewrite E in HX |- *.
-    destruct (IH (L ++ [e]) _ HX HK1) as [HK2 HI2].
-    split; [exact HK2|]. rewrite HI2. exact HI1.
+    destruct (IH (L ++ [e]) _ HX HK1) as (HK2 & HI2 & HS2 & HE2).
+    split; [exact HK2|]. rewrite HI2, HS2, HE2. auto.
 Qed.
 
 (* ---------------- whole schedules ---------------- *)
-Definition KI (k : chk) (s : st) (L : list logev) : Prop :=
-  KL k L /\ (k_idle k = true -> s_active s = [] /\ s_queue s = []).
+Definition KI (k : chk) (s : st) (L : list logev) (es : list event) : Prop :=
+  KL k L /\ (k_idle k = true -> s_active s = [] /\ s_queue s = []) /\
+  k_sub k = s_nfetch s /\ k_evs k = es.
 
 Lemma LogOK_of_inv nf s L :
   MInv s L -> CInv s L -> s_nfetch s <= nf -> LogOK nf L.
@@ -156,7 +147,7 @@ Qed.
 Lemma step_nfetch e s s' l :
   step e s = (s', l) -> s_nfetch s' = (if is_fetch e then 1 else 0) + s_nfetch s.
 Proof.
-  intro H. destruct e as [sp|a|a|a|a|a code hasloc|a|a];
+  intro H. destruct e as [sp|a|a|a|a|a code hasloc|a|a|a|a];
     try (apply (step_other_count 0) in H; [apply H|intros sp0 E0; discriminate E0]).
   apply (step_fetch_count 0) in H. simpl. apply H.
 Qed.
@@ -165,35 +156,43 @@ Lemma n_fetches_cons e es : n_fetches (e :: es) = (if is_fetch e then 1 else 0) 
 Proof. unfold n_fetches. simpl. destruct (is_fetch e); reflexivity. Qed.
 
 Lemma sched_fold mx nf : forall es s L k,
-  MInv s L -> CInv s L -> s_max s = mx -> s_nfetch s + n_fetches es = nf -> KI k s L ->
+  MInv3 s L -> CInv s L -> NLInv s L -> s_max s = mx -> s_nfetch s + n_fetches es = nf ->
+  KI k s L es ->
   forall s' L', exec es s = (s', L') ->
-  KI (fold_left (chk_entry mx nf) (run_obs es s) k) s' (L ++ L') /\ s_nfetch s' = nf.
+  KI (fold_left (chk_entry mx nf) (run_obs es s) k) s' (L ++ L') [] /\ s_nfetch s' = nf.
 Proof.
-  induction es as [|e es IH]; intros s L k HM HC Hmx Hnf HK s' L' HE; simpl in HE.
+  induction es as [|e es IH]; intros s L k HM HC HN Hmx Hnf HK s' L' HE; simpl in HE.
   - injection HE as <- <-. simpl. rewrite app_nil_r. split; [exact HK|].
     unfold n_fetches in Hnf. simpl in Hnf. lia.
   - cbn [run_obs]. destruct (step e s) as [s1 l] eqn:Es. destruct (exec es s1) as [s2 l2] eqn:Ee.
     injection HE as <- <-.
-    assert (HM1 := MInv_step _ _ _ _ _ HM Es).
+    assert (HM1 := MInv3_step _ _ _ _ _ HM Es).
     assert (HC1 := CInv_step _ _ _ _ _ HC Es).
+    assert (HN1 := NLInv_step _ _ _ _ _ HN Es).
     assert (Hmx1 : s_max s1 = mx) by (rewrite (step_max _ _ _ _ Es); exact Hmx).
     assert (Hn1 := step_nfetch _ _ _ _ Es).
     rewrite n_fetches_cons in Hnf.
     assert (Hnf1 : s_nfetch s1 + n_fetches es = nf) by lia.
-    assert (HX : LogOK nf (L ++ l)) by (eapply LogOK_of_inv; [exact HM1|exact HC1|lia]).
-    destruct HK as [HKL HKI].
-    destruct (seg_fold mx nf l L k HX HKL) as [(K1 & K2 & K3) _].
+    assert (HX : LogOK nf (L ++ l)) by (eapply LogOK_of_inv; [exact (proj1 HM1)|exact HC1|lia]).
+    destruct HK as (HKL & HKI & HKS & HKE).
+    destruct (seg_fold mx nf l L k HX HKL) as ((K1 & K2 & K3) & _ & K5 & K6).
     rewrite fold_left_app. cbn [fold_left].
     set (k1 := fold_left (chk_entry mx nf) (flat_map obs_logev l) k) in *.
-    unfold obs_snap. rewrite chk_snap.
-    rewrite app_assoc. eapply IH; [exact HM1|exact HC1|exact Hmx1|exact Hnf1| |exact Ee].
-    destruct HM1 as ([(_ & I2 & _) _] & _ & _).
-    unfold KI, KL. cbn [k_ok k_last_start k_done k_idle]. split; [split; [|split]|].
+    unfold obs_snap. rewrite chk_snap, K6, HKE, K5, HKS, <- Hn1.
+    rewrite app_assoc. eapply IH; [exact HM1|exact HC1|exact HN1|exact Hmx1|exact Hnf1| |exact Ee].
+    destruct HM1 as [(HG1 & _ & _) HG3].
+    assert (Cons := conservation_inv s1 (L ++ l) HG1 HG3 HC1 HN1).
+    destruct HG1 as [(_ & I2 & _) _].
+    unfold KI, KL. cbn [k_ok k_last_start k_done k_idle k_sub k_evs].
+    split; [split; [|split]|split; [|split; reflexivity]].
     + rewrite K1, andb_true_l.
       assert (E1 : (Z.of_nat (List.length (s_active s1)) <=? Z.of_nat mx)%Z = true) by (apply Z.leb_le; lia).
       assert (E2 : (0 <=? Z.of_nat (List.length (s_active s1)))%Z = true) by (apply Z.leb_le; lia).
       assert (E3 : (0 <=? Z.of_nat (List.length (s_queue s1)))%Z = true) by (apply Z.leb_le; lia).
-      rewrite E1, E2, E3. reflexivity.
+      assert (E4 : (Z.of_nat (List.length (s_active s1)) + Z.of_nat (List.length (s_queue s1))
+                    + Z.of_nat (List.length (k_done k1)) =? Z.of_nat (s_nfetch s1))%Z = true).
+      { apply Z.eqb_eq. rewrite K3, rev_length. lia. }
+      rewrite E1, E2, E3, E4. reflexivity.
     + exact K2.
     + exact K3.
     + intro Hi. apply andb_true_iff in Hi. destruct Hi as [Ha Hq].
@@ -228,25 +227,27 @@ Qed.
 
 (* the checker state after the whole schedule *)
 Theorem check_sched_state : forall m es s L, exec es (init m) = (s, L) ->
-  let k := fold_left (chk_entry m (n_fetches es)) (run_obs es (init m)) (mkChk true None [] true) in
+  let k := fold_left (chk_entry m (n_fetches es)) (run_obs es (init m)) (mkChk true None [] true 0 es) in
   k_ok k = true /\ k_last_start k = last_opt (starts L) /\ k_done k = rev (dones L) /\
-  (k_idle k = true -> s_active s = [] /\ s_queue s = []) /\ s_nfetch s = n_fetches es.
+  (k_idle k = true -> s_active s = [] /\ s_queue s = []) /\ s_nfetch s = n_fetches es /\
+  k_sub k = n_fetches es /\ k_evs k = [].
 Proof.
   intros m es s L H k.
-  assert (K0 : KI (mkChk true None [] true) (init m) []).
-  { split; [repeat split|]. intros _. split; reflexivity. }
-  destruct (sched_fold m (n_fetches es) es (init m) [] _ (MInv_init m) (CInv_init m) eq_refl eq_refl K0 s L H)
-    as [[(K1 & K2 & K3) K4] K5].
-  simpl app in *. fold k in K1, K2, K3, K4. tauto.
+  assert (K0 : KI (mkChk true None [] true 0 es) (init m) [] es).
+  { split; [repeat split|]. split; [intros _; split; reflexivity|split; reflexivity]. }
+  assert (N0 : NLInv (init m) []) by (intros f o []).
+  destruct (sched_fold m (n_fetches es) es (init m) [] _ (MInv3_init m) (CInv_init m) N0 eq_refl eq_refl K0 s L H)
+    as [((K1 & K2 & K3) & K4 & K6 & K7) K5].
+  simpl app in *. fold k in K1, K2, K3, K4, K6, K7. rewrite K5 in K6. tauto.
 Qed.
 
 Theorem check_sched_sound : forall m es, check_sched m es (OList (run_obs es (init m))) = true.
 Proof.
   intros m es. unfold check_sched. cbv zeta.
   destruct (exec es (init m)) as [s L] eqn:H.
-  destruct (check_sched_state m es s L H) as (K1 & _ & K3 & K4 & K5).
-  rewrite K1. simpl.
-  destruct (k_idle (fold_left (chk_entry m (n_fetches es)) (run_obs es (init m)) (mkChk true None [] true)))
+  destruct (check_sched_state m es s L H) as (K1 & _ & K3 & K4 & K5 & _ & K7).
+  rewrite K1, K7, andb_true_r, andb_true_l.
+  destruct (k_idle (fold_left (chk_entry m (n_fetches es)) (run_obs es (init m)) (mkChk true None [] true 0 es)))
     eqn:Ei; [|reflexivity].
   simpl. destruct (K4 eq_refl) as [Ha Hq].
   rewrite K3, rev_length, (idle_all_done m es s L H Ha Hq), K5. apply Nat.eqb_refl.
